@@ -38,6 +38,22 @@ func verifHarness_C05_sysInterleavedPartitions() {
 	vReach()
 }
 
+// C05: the broker answers per partition, so two partitions of one request can fail differently
+// in the same response (e.g. one batch appended but answered with a retriable error while the
+// neighbour's rejection bumps the epoch): the resent batch must still be recognised as a
+// duplicate. Two partitions on one broker, 2..3 messages batched into one request.
+func verifHarness_C05_sysTwoFaultsOneResponse() {
+	c := vProdCfg{n: 2 + vChoose("extraMessage", 2), parts: 2, brokers: 1, faults: 2, faultMenu: vfKinds, delay: 0,
+		idem: true, retryMax: 1 + vChoose("retryMax", 2), multiFault: true}
+	c.flushMessages, c.flushFrequency = 2, true
+	c.class = vSprintf("twoFaultsOneResponse,n=%d,retryMax=%d,idem=true", c.n, c.retryMax)
+	r := vRunProducer(c)
+	r.assertC05()
+	r.assertC01()
+	vCover("two-faults-in-one-response", len(r.cl.faultKinds) >= 3 && r.cl.faultKinds[1] == '+')
+	vReach()
+}
+
 // C05 (S8): for every configuration, Validate()==nil with Idempotent set implies the settings
 // the idempotence protocol needs.
 func verifHarness_C05_validateIdempotent() {
